@@ -1786,3 +1786,31 @@ def c01_rebinding(tier, seed, first_id=3500000):
     out.append(mk(ids, [assign("old", N("fromto")), assign("fromto", fn(["a", "b"], y(I(42)))), fr(["i"], [call("fromto", I(0), I(3))], N("i")), assign("fromto", N("old")), fr(["i"], [call("fromto", I(0), I(3))], N("i"))],
                   {"rebinding": "a built-in's name"}))
     return ("the same code run again after the names it mentions were rebound", out, ("value",))
+
+
+# =============================================================== floats outside the exact sub-domain: the same operations in the same order
+
+def float_chains(tier, seed, first_id=3600000):
+    """Arithmetic on floats the value model cannot compute is judged as an uninterpreted but functional operator (symbolic floats of
+    CalcSem's trace mode): a session first shows the steps one by one (t = x op1 k1, u = t op2 k2), then computes the chain in one
+    piece, written in place, through a function, in a loop and as an operand -- each must give what the steps gave."""
+    ids = Ids(first_id)
+    rnd = random.Random(seed * 31 + 5)
+    xs = [0.1, 0.3, 2.675, 9007199254740992.0, 1.1, 123456.789, 4503599627370497.5, 0.7, 0.001]
+    ks = [(1, 1), (1, -1), (3, 7), (10, 3), (2, 1)]
+    out = []
+    combos = [(x, k1, k2, o1, o2) for x in xs for (k1, k2) in ks for (o1, o2) in (("+", "+"), ("+", "-"), ("-", "+"), ("*", "*"), ("*", "+"), ("/", "*"), ("+", "*"))]
+    if tier == "quick":
+        combos = [c for c in combos if shash((c, seed)) % 6 == 0] + [(0.1, 1, 1, "+", "-"), (9007199254740992.0, 1, 1, "+", "+"), (0.1, 3, 7, "*", "*")]
+    for x, k1, k2, o1, o2 in combos:
+        K1, K2 = I(k1), I(k2)
+        if rnd.random() < 0.3:
+            K2 = Fl(k2 if k2 > 0 else -k2, 0, k2 < 0)
+        X = N("x")
+        chain = bin_(o2, bin_(o1, X, K1), K2)
+        items = [assign("x", FlOpq(x)), assign("t", bin_(o1, X, K1)), assign("u", bin_(o2, N("t"), K2)), assign("v", chain), bin_("==", N("u"), N("v")),
+                 assign("f", fn(["p"], bin_(o2, bin_(o1, N("p"), K1), K2))), call("f", X), bin_("==", call("f", X), N("u")),
+                 assign("acc", lst([])), fr(["q"], [call("fromto", I(0), I(2))], assign("acc", bin_("+", N("acc"), lst([bin_(o2, bin_(o1, X, K1), K2)])))), N("acc"),
+                 assign("w", bin_(o2, bin_(o1, X, K1), K2)), bin_("==", N("w"), N("u")), lst([chain, N("u")]), un("-", chain), assign("nu", un("-", N("u"))), bin_("==", un("-", chain), N("nu"))]
+        out.append(mk(ids, items, {"float-chain": [x, o1, k1, o2, k2]}))
+    return ("floats outside the exact sub-domain: a chain in one piece gives what its steps gave", out, ("value",))
